@@ -326,7 +326,7 @@ fn longest_prefix<'a>(pred: &str, iris: &'a [String]) -> Option<&'a String> { ir
 impl Prop for C12 {
     type Case = SdsCase;
     fn id(&self) -> &'static str { "C12" }
-    fn expected_counters(&self) -> Vec<&'static str> { vec!["probe.rearrival_renews_alive_triple", "probe.renewal_raised_derived_expiry", "probe.derived_fact_lost_support", "probe.evaluation_after_total_expiry"] }
+    fn expected_counters(&self) -> Vec<&'static str> { vec!["probe.rearrival_renews_alive_triple", "probe.renewal_raised_derived_expiry", "probe.derived_fact_lost_support", "probe.evaluation_after_total_expiry", "probe.listed_fact_also_derived_with_longer_support"] }
     fn budget(&self, tier: Tier) -> Budget { match tier { Tier::Quick => Budget { runs: 20_000, wall_s: 60, recheck: 30 }, Tier::Thorough => Budget { runs: 600_000, wall_s: 1000, recheck: 100 } } }
     fn hash_seed(&self, c: &SdsCase) -> u64 { c.hash_seed }
     fn gen(&self, seed: u64, _i: u64, _tier: Tier) -> SdsCase {
@@ -344,6 +344,7 @@ impl Prop for C12 {
         let src_pred = |r: &mut Rng, outs: &[String], windows: &[WinDecl], allow_out: bool| -> String {
             match r.below(if allow_out { 5 } else { 4 }) { 0 | 1 | 2 => format!("{}{}", windows[r.usize(windows.len())].iri, r.pick(&locals)), 3 if !statics.is_empty() => format!("{}s", static_iri), 3 => format!("{}{}", windows[0].iri, "p"), _ => format!("{}{}", r.pick(outs), r.pick(&["r", "t"])) } };
         let mut rules = vec![];
+        let head_in_window = cfg.chance(1, 3);
         for _ in 0..(1 + r.usize(4)) {
             let k = 1 + r.usize(3);
             let vars = ["?x", "?y", "?z", "?w"];
@@ -351,7 +352,10 @@ impl Prop for C12 {
             for i in 0..k { let s = if r.chance(1, 8) { node(&mut r) } else { vars[i].to_string() }; let o = if r.chance(1, 8) { node(&mut r) } else { vars[i + 1].to_string() }; prem.push((s, src_pred(&mut r, &outs, &windows, true), o)); }
             let used: Vec<String> = prem.iter().flat_map(|p| [p.0.clone(), p.2.clone()]).filter(|t| dm::is_var(t)).collect();
             if used.is_empty() { continue; }
-            let conc = vec![(r.pick(&used).clone(), format!("{}{}", r.pick(&outs), r.pick(&["r", "t"])), r.pick(&used).clone())];
+            // mostly into an output component; with `head_in_window` sometimes onto a predicate of an input window, where the same
+            // triple may also be listed by the stream (two kinds of support for one fact)
+            let conc_pred = if head_in_window && r.chance(1, 3) { format!("{}{}", windows[r.usize(windows.len())].iri, r.pick(&locals)) } else { format!("{}{}", r.pick(&outs), r.pick(&["r", "t"])) };
+            let conc = vec![(r.pick(&used).clone(), conc_pred, r.pick(&used).clone())];
             rules.push(dm::Rule { prem, neg: vec![], conc, filt: vec![] });
         }
         if rules.is_empty() { rules.push(dm::Rule { prem: vec![("?x".into(), format!("{}p", windows[0].iri), "?y".into())], neg: vec![], conc: vec![("?x".into(), format!("{}r", outs[0]), "?y".into())], filt: vec![] }); }
@@ -422,6 +426,7 @@ impl Prop for C12 {
             let rset: BTreeSet<(String, String, String, String)> = refm.keys().filter_map(|f| longest_prefix(&f.1, &iris).map(|c| (c.clone(), f.0.clone(), f.1[c.len()..].to_string(), f.2.clone()))).collect();
             if nset != rset { rayon::sim_reset(); return Some(Violation::new("naive-differs", format!("step {} (t={}): naive_sds_plus yields {} facts, reference {}; e.g. {:?} / {:?}", si, t, nset.len(), rset.len(), nset.difference(&rset).next(), rset.difference(&nset).next()))); }
             // probes
+            if refm.iter().any(|(f, e)| base.get(f).map(|be| e > be).unwrap_or(false)) { ctx.hit("probe.listed_fact_also_derived_with_longer_support"); }
             for (f, e) in &refm { if let Some(pe) = prev_ref.get(f) { if !base.contains_key(f) && e > pe { ctx.hit("probe.renewal_raised_derived_expiry"); } } }
             if prev_ref.keys().any(|f| !base.contains_key(f) && !refm.contains_key(f)) && !prev_ref.is_empty() { ctx.hit("probe.derived_fact_lost_support"); }
             if !prev_ref.is_empty() && base.values().all(|e| *e == u64::MAX) { ctx.hit("probe.evaluation_after_total_expiry"); }
@@ -447,6 +452,6 @@ impl Prop for C12 {
         out
     }
     fn rule(&self) -> String { "A case is one window-consistent stream history over 2-3 simulated windows (+ optional static graph) with an increasing sequence of evaluation times chosen by the simulated clock (dense, sparse, jumping past every expiry); at every evaluation incremental_sds_plus is fed the carried state and compared, per component, fact by fact and expiry by expiry, with a from-scratch reference least model over the alive facts with the expiry lattice; naive_sds_plus must give the same fact sets. Non-trivial = at least 3 evaluation steps and a non-empty final materialisation; distinct = hash of (rules, steps, windows).".into() }
-    fn assumptions(&self) -> Vec<String> { vec!["window contents are built as the quantifier states: a triple is listed once with its latest arrival and stays listed until event_time + alpha <= t".into(), "rule conclusions lie in an output component; component IRIs may be nested but local names contain no '/'".into()] }
+    fn assumptions(&self) -> Vec<String> { vec!["window contents are built as the quantifier states: a triple is listed once with its latest arrival and stays listed until event_time + alpha <= t".into(), "rule conclusions lie in an output component or (a third of the cases) on a predicate of an input window; component IRIs may be nested but local names contain no '/'".into()] }
     fn real_vs_stub(&self) -> serde_json::Value { serde_json::json!({"real": ["datalog::reasoning::materialisation::cross_window_incremental::incremental_sds_plus", "cross_window_naive::naive_sds_plus", "cross_window_sds::translate_sds_to_datalog", "provenance_semi_naive (ExpirationProvenance)"], "simulated": ["stream arrival times and evaluation clock", "window contents (simulated windows; the real CSPARQLWindow is exercised by C09-C11)", "rayon (sim-rayon)", "hash keys"], "not_run": ["RSPEngine cross-window wiring (build_cross_window_sds)"]}) }
 }
